@@ -125,6 +125,10 @@ def run(ctx: Ctx) -> None:
             lim = H.LIMIT_CONFIGS[cn]
             g = H.Group("response", data, lim, src=src, label=f"{label} [{cn}]", **opts)
             _segmentations(ctx, g, rng, pairs and src != "bytes")
+            if k % 10 == 0 and lim.limit > 16 and len(data) <= 300:
+                g.client([])
+                for c in range(1, len(data), 5):
+                    g.client([c])
             acc.add(g)
     acc.flush("responses")
     ctx.extra["clauses_seen"] = acc.stats
@@ -166,6 +170,24 @@ def selftest(ctx: Ctx) -> int:
     def body_byte(t: dict) -> None:
         t["events"][0]["msgs"][0]["body"][1] ^= 4
 
+    # group-level clause: two outcomes that are each compatible with the reference (the stream lies in a
+    # permitted-alternative zone) but differ from each other must be reported as segmentation dependence
+    soft = b"get / HTTP/1.1\r\nHost: a\r\n\r\n"
+    g2 = H.Group("request", soft, H.DEFAULT_LIMITS, src="selftest", label="alt zone")
+    g2.parse([])
+    t2 = g2.trace()
+    import copy
+    e2 = copy.deepcopy(t2["events"][0])
+    e2["msgs"] = []
+    e2["exc"] = "BadHttpMethod"
+    e2["cutsets"] = [[3]]
+    t2["events"].append(e2)
+    from engine.tlc import validate_batch
+    vs, _ = validate_batch(H.TRACE_MODULE, H.TRACE_CFG, [g2.trace(), t2])
+    print(f"selftest: group clause: consistent -> ok={vs[0].ok}; verdict differs under a cut -> clause={vs[1].clause!r}")
+    if not (vs[0].ok and vs[1].clause == "SegmentationVerdict"):
+        print("selftest FAILED")
+        return 2
     return H.selftest_common(
         ctx, g,
         [("a cut loses a message", second_outcome), ("a cut turns accept into reject", cut_rejects),
